@@ -154,6 +154,7 @@ type Obligation struct {
 	Axioms  []*Term
 	BytesAxioms bool
 	RowFrames   []rowFrame
+	CoverBase   []*Term // cover of an assumption: the path condition before the assumption (a dead path is not vacuity)
 	DeepInst    bool // contract flag deepinst: instantiate the quantified hypotheses at derived source indices too
 	shaped  bool
 	lifted  bool
